@@ -101,13 +101,7 @@ Print Assumptions C08_total_closed.
 Theorem C08_total_keyerror_refuted :
   exists w c t, okb w = true /\ closedT w = true /\ inb c (channels w) = true /\ kerr w c = true /\
                 get_sampled w c [t] = Err EKey.
-Proof.
-  exists (WTrans (WMulti [WTable 4%N [mkE 0 1 Hold; mkE 1 2 Linear]; WTable 3%N [mkE 0 1 Hold; mkE 1 2 Linear]])
-                 (TChain [TParallel [(1%N, TC 3)]; TLinear [1%N; 3%N] [2%N] [[1; 1]]])), 4%N, (1#2).
-  exact (conj (proj1 total_keyerror_refuted) (conj (proj1 (proj2 total_keyerror_refuted))
-        (conj (proj1 (proj2 (proj2 total_keyerror_refuted))) (conj (proj1 (proj2 (proj2 (proj2 total_keyerror_refuted))))
-        (proj1 (proj2 (proj2 (proj2 (proj2 (proj2 total_keyerror_refuted)))))))))).
-Qed.
+Proof. exact total_keyerror_refuted_ex. Qed.
 Print Assumptions C08_total_keyerror_refuted.
 
 (* ---- optimising constructors: the constant-folding branch samples like the plain composite (on [0, duration)) ---- *)
